@@ -444,11 +444,11 @@ def filter_domains_gcc(domains: NDArray, parameters: NDArray) -> int:
     n = len(domains)
     m = (len(parameters) - 1) // 2  # number of values
     bounds_nb = 2 * n + 2
-    ranks = np.zeros((n, 2), dtype=np.uint16)
+    ranks = np.zeros((n, 2), dtype=np.int32)
     bounds = np.zeros(bounds_nb, dtype=np.int32)
-    t = np.zeros(bounds_nb, dtype=np.uint16)  # critical capacity pointers
+    t = np.zeros(bounds_nb, dtype=np.int32)  # critical capacity pointers
     d = np.zeros(bounds_nb, dtype=np.int32)  # differences between critical capacities
-    h = np.zeros(bounds_nb, dtype=np.uint16)  # Hall interval pointers
+    h = np.zeros(bounds_nb, dtype=np.int32)  # Hall interval pointers
     stbl_intervals = np.zeros(bounds_nb, dtype=np.int32)
     pot_stbl_sets = np.zeros(bounds_nb, dtype=np.int32)
     new_mins = np.zeros(n, dtype=np.int32)
